@@ -534,6 +534,8 @@ func init() {
 			{Name: "string-token-bytes", N: c04ByteN, Run: c04Bytes, Exhaustive: true},
 			{Name: "lone-surrogates", N: c04SurN, Run: c04Sur, Exhaustive: true},
 			{Name: "escape-window", N: c04EscN, Run: c04Esc, Exhaustive: true},
+			{Name: "padded-numbers", N: c04PaddedN, Run: c04Padded, Exhaustive: true},
+			{Name: "identifier-neighbours", N: c04NeighN, Run: c04Neigh, Exhaustive: true},
 		},
 	})
 }
@@ -704,6 +706,55 @@ func c04Esc(c *Ctx, idx int) {
 	texts := []string{`"\u` + win + `"`, `"\ud83d\u` + win + `"`, "`\"\\u" + win + "\"`"}
 	if c.Tier == "thorough" {
 		texts = append(texts, `"x\u`+win+`y"`, `{"\u`+win+`": a}`)
+	}
+	for _, t := range texts {
+		pr := c.CheckGrammar(t, feats)
+		if pr.Status != ref.ParseGap {
+			c.Nontrivial(t)
+		}
+	}
+}
+
+// ---- zero-padded integers in brackets: number = ["-"] 1*digit, any number of leading zeros
+func c04PaddedN(c *Ctx) int { return len(c12PadZeros) }
+
+func c04Padded(c *Ctx, idx int) {
+	z := strings.Repeat("0", c12PadZeros[idx])
+	feats := map[string]string{"family": "padded-numbers", "zeros": fmt.Sprint(len(z))}
+	for _, t := range []string{"foo[" + z + "1]", "foo[-" + z + "1]", "foo[" + z + "1:]", "foo[:" + z + "2]", "foo[::" + z + "2]", "foo[::-" + z + "1]", "[" + z + "]", "[" + z + "0]", "foo[" + z + "1:" + z + "2:" + z + "3]", "foo[*][" + z + "1]", "foo | [" + z + "7]", "foo[" + z + "]", "foo[-" + z + "]",
+		"foo[" + z + "9223372036854775807]", "foo[-" + z + "9223372036854775808]", "foo[ " + z + "1 ]", "foo[" + z + "1 : " + z + "2]", "foo[" + z + "1a]", "foo[" + z + "1.0]", "foo[" + z + "-1]", "foo[+" + z + "1]", "foo[" + z + "1e2]", "`" + z + "1`", "foo[?bar == `" + z + "`]"} {
+		pr := c.CheckGrammar(t, feats)
+		if pr.Status != ref.ParseGap {
+			c.Nontrivial(t)
+		}
+	}
+}
+
+// ---- every code point next to an identifier
+//
+// Outside quotes only ASCII (and the three operator signs) can continue or follow a name.  A scanner
+// that classifies characters through a table indexed by a truncated code point, or through a
+// Unicode predicate (IsLetter, IsDigit), accepts other alphabets' letters and digits as part of
+// identifiers, variables and function names.  Every code point U+0080..U+24FF and samples of the
+// higher planes, glued to the end, the start and the middle of a name, of a variable and of a
+// function name.
+func c04NeighN(c *Ctx) int { return 0x2500 - 0x80 + 200 }
+
+func c04NeighRune(i int) rune {
+	if i < 0x2500-0x80 {
+		return rune(0x80 + i)
+	}
+	i -= 0x2500 - 0x80
+	bases := []rune{0x3041, 0x4E00, 0xAC00, 0xFF10, 0xFF21, 0xFF41, 0x10400, 0x1D400, 0x1D7CE, 0x1F600, 0xA640, 0x2C00, 0x1E900, 0xE0030, 0x10FFC0, 0xFE30, 0x2E80, 0x3200, 0xD7B0, 0xFB00}
+	return bases[i%len(bases)] + rune(i/len(bases))*7
+}
+
+func c04Neigh(c *Ctx, idx int) {
+	r := string(c04NeighRune(idx))
+	feats := map[string]string{"family": "identifier-neighbours", "code_point": fmt.Sprintf("U+%04X", c04NeighRune(idx))}
+	texts := []string{"foo" + r, r + "foo", "fo" + r + "o", "let $v = a in $v" + r, "abs" + r + "(a)", "a." + r}
+	if c.Tier == "thorough" {
+		texts = append(texts, "foo."+"b"+r+"r", "$"+r, "{k"+r+": a}", "foo["+r+"]", "a"+r+"b(a)", "foo "+r, "_"+r, "a1"+r)
 	}
 	for _, t := range texts {
 		pr := c.CheckGrammar(t, feats)
